@@ -115,6 +115,22 @@ def check (inp out : List String) : Verdict :=
           specFail := failing (stepClauses s sc o) }
       | _, _ => .bad "st values"
     | _, _, _ => .bad "st tokens"
+  | ["cli2", sub, arg, compat] =>
+    -- the sub-commands without an on/off word
+    match hexBytes? (out.headD "-") with
+    | some bytes =>
+      let want? : Option Packet :=
+        if sub == "engine-shutdown" then some (.engine Engine.shutdown)
+        else if sub == "machine-shutdown" then some (.control .machineShutdown)
+        else if sub == "engine" then arg.toNat?.map fun rpm => .engine (Engine.fromRpm rpm)
+        else none
+      match want? with
+      | some p =>
+        let m := if compat == "1" then sendPacket p else []
+        { agree := m == bytes, model := hexOf m,
+          specFail := failing [("cli_sends_exactly", bytes == m)] }
+      | none => .bad "cli2 sub-command"
+    | none => .bad "cli2 bytes"
   | ["cli", sub, word, compat] =>
     match parseSub? sub, out with
     | some sub, [bytes] =>
